@@ -252,9 +252,11 @@ class UCtx:
                         elif b[0] == "const" and isinstance(b[1], (int, float, Fraction)) and not isinstance(b[1], bool):
                             env[nm] = Fraction(repr(b[1])) if isinstance(b[1], float) else b[1]
                 try:
-                    attrs[name] = self.interp.eval(val.expr, env, init, 0)
+                    v = self.interp.eval(val.expr, env, init, 0)
                 except AnalysisError:
-                    pass
+                    continue
+                if isinstance(v, UVal) or isinstance(v, (int, Fraction)):
+                    attrs[name] = v
         self.dim2 = MODELS[key]["dim"] == 2
 
     def state(self, dims):
